@@ -35,6 +35,18 @@
 // i.e. where the package pointer that is handed to a receiver comes from (the model hands every
 // receiver a fresh DeepCopy or nil).
 //
+// reqMgrBlocking, per method in {handleRequest, handleResponse}: the operations in the method body
+// that may block, i.e. that execute while `inFlightLock` is held (the bodies of functions started
+// with `go` are excluded: they run on their own goroutine, outside the caller's lock; deferred and
+// immediately called closures are included) - channel sends (`send <chan>`), receives
+// (`recv <expr>`), `select` statements, `range` over a call/receive is not recognised, and calls
+// of methods named Lock / RLock / Wait / Acquire / Sleep on anything but `inFlightLock`
+// (`call <selector>`).  A goroutine that waits for something inside the critical section keeps
+// every other request and every finishing pull out; the model's steps never wait.
+//
+// reqMgrChanMakes: every `make(chan ...)` expression in handleRequest (the receiver channels the
+// broadcast sends to under the lock: buffered, so that the send does not wait for the receiver).
+//
 // Only the standard library is used.
 package main
 
@@ -115,13 +127,27 @@ func main() {
 		}
 	}
 
-	var rows, gos, sent []string
+	var rows, gos, sent, blocking, makes []string
 	for _, t := range targets {
 		m, ok := methods[t]
 		if !ok {
 			rows = append(rows, fmt.Sprintf("  (%q, %q, 0, false, 0, true)", t, "missing"))
 			gos = append(gos, fmt.Sprintf("  (%q, [])", t))
+			blocking = append(blocking, fmt.Sprintf("  (%q, [\"missing\"])", t))
 			continue
+		}
+		blocking = append(blocking, fmt.Sprintf("  (%q, %s)", t, leanStrList(blockingOps(m))))
+		if t == "handleRequest" {
+			ast.Inspect(m.decl.Body, func(x ast.Node) bool {
+				if ce, ok := x.(*ast.CallExpr); ok {
+					if id, ok := ce.Fun.(*ast.Ident); ok && id.Name == "make" && len(ce.Args) > 0 {
+						if _, ok := ce.Args[0].(*ast.ChanType); ok {
+							makes = append(makes, types.ExprString(ce))
+						}
+					}
+				}
+				return true
+			})
 		}
 		kind, idx, deferFollows, others, outside := analyse(m)
 		rows = append(rows, fmt.Sprintf("  (%q, %q, %d, %v, %d, %v)", t, kind, idx, deferFollows, others, outside))
@@ -193,7 +219,14 @@ func main() {
 	b.WriteString("/-- sends in handleResponse: (channel, RawPackage field value, declared without value, right-hand sides assigned to it) -/\n")
 	b.WriteString("def reqMgrSent : List (String × String × Bool × List String) := [\n")
 	b.WriteString(strings.Join(sent, ",\n"))
-	b.WriteString("\n]\n\nend Pko.Gen.ReqMgrLocks\n")
+	b.WriteString("\n]\n\n")
+	b.WriteString("/-- per method: the operations that may block and execute while the lock is held (bodies of `go` functions excluded) -/\n")
+	b.WriteString("def reqMgrBlocking : List (String × List String) := [\n")
+	b.WriteString(strings.Join(blocking, ",\n"))
+	b.WriteString("\n]\n\n")
+	b.WriteString("/-- the `make(chan ...)` expressions in handleRequest -/\n")
+	b.WriteString("def reqMgrChanMakes : List String := " + leanStrList(makes) + "\n\n")
+	b.WriteString("end Pko.Gen.ReqMgrLocks\n")
 	if err := os.MkdirAll(filepath.Dir(*out), 0o755); err != nil {
 		fail("%v", err)
 	}
@@ -346,6 +379,52 @@ func analyse(m fn) (kind string, idx int, deferFollows bool, others int, outside
 		return true
 	})
 	return kind, li, deferFollows, others, outside
+}
+
+// blockingOps: operations in the body of m that may block and run on m's own goroutine (so, for
+// the target methods, under the lock): see the package comment.
+func blockingOps(m fn) []string {
+	var ops []string
+	var visit func(n ast.Node)
+	visit = func(n ast.Node) {
+		if n == nil {
+			return
+		}
+		ast.Inspect(n, func(x ast.Node) bool {
+			switch t := x.(type) {
+			case *ast.GoStmt:
+				// arguments are evaluated here, the function body runs elsewhere
+				for _, a := range t.Call.Args {
+					visit(a)
+				}
+				if _, lit := t.Call.Fun.(*ast.FuncLit); !lit {
+					visit(t.Call.Fun)
+				}
+				return false
+			case *ast.SendStmt:
+				ops = append(ops, "send "+types.ExprString(t.Chan))
+			case *ast.UnaryExpr:
+				if t.Op == token.ARROW {
+					ops = append(ops, "recv "+types.ExprString(t.X))
+				}
+			case *ast.SelectStmt:
+				ops = append(ops, "select")
+			case *ast.CallExpr:
+				if mutexCall(t, m.recv) != "" {
+					return true
+				}
+				if se, ok := t.Fun.(*ast.SelectorExpr); ok {
+					switch se.Sel.Name {
+					case "Lock", "RLock", "Wait", "Acquire", "Sleep":
+						ops = append(ops, "call "+types.ExprString(t.Fun))
+					}
+				}
+			}
+			return true
+		})
+	}
+	visit(m.decl.Body)
+	return ops
 }
 
 // sendFacts: where does the RawPackage pointer of every response sent in m come from.
